@@ -25,6 +25,12 @@ type c13Op struct {
 }
 type c13Case struct {
 	Ops []c13Op `json:"ops"`
+	// gate at the CLIENT instead of at the publish point: every publishDiagnostics notification is
+	// withheld by the client stub and released in the order given by Release (index into the calls
+	// waiting at that moment, modulo their number); the window between "is this still the current
+	// version?" and the delivery of the notification is then under the harness's control
+	ClientGate bool  `json:"client_gate,omitempty"`
+	Release    []int `json:"release,omitempty"`
 }
 
 // contents with pairwise different diagnostics (and two with equal ones)
@@ -101,7 +107,114 @@ func c13Classes() ([]int, map[string]int, error) {
 
 var c13Mu sync.Mutex // the hook is process-global
 
+func c13RunClientGate(c c13Case, classOf []int, classes map[string]int) (string, error) {
+	c13Mu.Lock()
+	defer c13Mu.Unlock()
+	srv, stub, base := newTestServer()
+	stub.mu.Lock()
+	stub.hold = true
+	stub.mu.Unlock()
+	ctx := context.Background()
+	open := map[int]int{}
+	version := 1
+	releaseOne := func(i int) bool {
+		stub.mu.Lock()
+		n := len(stub.waiting)
+		if n == 0 {
+			stub.mu.Unlock()
+			return false
+		}
+		h := stub.waiting[i%n]
+		stub.waiting = append(stub.waiting[:i%n:i%n], stub.waiting[i%n+1:]...)
+		stub.mu.Unlock()
+		close(h.release)
+		return true
+	}
+	settle := func() { // let the goroutines run until they block (at the client or on the lock) or finish
+		last, same := -1, 0
+		for k := 0; k < 400 && same < 25; k++ {
+			time.Sleep(200 * time.Microsecond)
+			n := stub.waitingCount()*1000 + runtime.NumGoroutine()
+			if n == last {
+				same++
+			} else {
+				same, last = 0, n
+			}
+		}
+	}
+	for _, op := range c.Ops {
+		if op.Op != "change" {
+			continue
+		}
+		u := c01URI(op.URI)
+		text := c13Contents[op.Content]
+		if _, ok := open[op.URI]; !ok {
+			_ = srv.DidOpen(ctx, &protocol.DidOpenTextDocumentParams{TextDocument: protocol.TextDocumentItem{URI: u, Text: text, Version: 1}})
+		} else {
+			version++
+			_ = srv.DidChange(ctx, &protocol.DidChangeTextDocumentParams{
+				TextDocument:   protocol.VersionedTextDocumentIdentifier{TextDocumentIdentifier: protocol.TextDocumentIdentifier{URI: u}, Version: int32(version)},
+				ContentChanges: []protocol.TextDocumentContentChangeEvent{{Text: text}},
+			})
+		}
+		open[op.URI] = op.Content
+		settle()
+	}
+	for k := 0; k < 64; k++ {
+		idx := 0
+		if k < len(c.Release) {
+			idx = c.Release[k]
+		}
+		if !releaseOne(idx) {
+			if runtime.NumGoroutine() <= base {
+				break
+			}
+		}
+		settle()
+	}
+	stub.mu.Lock()
+	stub.hold = false
+	for _, h := range stub.waiting {
+		close(h.release)
+	}
+	stub.waiting = nil
+	stub.mu.Unlock()
+	if !quiesce(base) {
+		return "", fmt.Errorf("background tasks did not finish")
+	}
+	stub.mu.Lock()
+	var obs []string
+	for _, p := range stub.published {
+		ui := -1
+		for i := 0; i < 3; i++ {
+			if p.URI == c01URI(i) {
+				ui = i
+			}
+		}
+		cl, ok := classes[diagFingerprint(p.Diagnostics)]
+		if !ok {
+			cl = 777777
+		}
+		obs = append(obs, fmt.Sprintf("(%d, %d)", ui, cl))
+	}
+	stub.mu.Unlock()
+	var fin []string
+	for ui := 0; ui < 3; ui++ {
+		if k, ok := open[ui]; ok {
+			fin = append(fin, fmt.Sprintf("(%d, %d)", ui, k))
+		}
+	}
+	var fp []string
+	for _, k := range classOf {
+		fp = append(fp, fmt.Sprint(k))
+	}
+	return fmt.Sprintf("(mkCase %s [] %s %s true)", gList(fp), gList(obs), gList(fin)), nil
+}
+
 func c13Run(c c13Case, classOf []int, classes map[string]int) (string, error) {
+	if c.ClientGate {
+		return c13RunClientGate(c, classOf, classes)
+	}
 	c13Mu.Lock()
 	defer c13Mu.Unlock()
 	gate := &publishGate{}
@@ -200,7 +313,7 @@ func c13Run(c c13Case, classOf []int, classes map[string]int) (string, error) {
 	for _, k := range classOf {
 		fp = append(fp, fmt.Sprint(k))
 	}
-	return fmt.Sprintf("(mkCase %s %s %s %s)", gList(fp), gList(evs), gList(obs), gList(fin)), nil
+	return fmt.Sprintf("(mkCase %s %s %s %s false)", gList(fp), gList(evs), gList(obs), gList(fin)), nil
 }
 
 // permutations of 0..n-1 as sequences of "complete index" operations on a shrinking pending list
@@ -223,7 +336,7 @@ func c13Perms(n int) [][]int {
 }
 
 func runC13(o opts) error {
-	st := newStats("C13", o.seed, "case = trace of changes (didOpen/didChange with one of 8 contents) on up to 3 documents, closes, and publish-point releases chosen by the harness; exhaustive part: every assignment of a burst of 2..4 changes to two documents x every release permutation; random part: interleaved traces with bursts up to 6; non-trivial = some release is out of issue order; distinct by hash")
+	st := newStats("C13", o.seed, "case = trace of changes (didOpen/didChange with one of 8 contents) on up to 3 documents, closes, and publish-point releases chosen by the harness; exhaustive part: every assignment of a burst of 2..4 changes to two documents x every release permutation; random part: interleaved traces with bursts up to 6; client-gated part: bursts of 2..3 changes with every notification withheld by the client stub and released in every order (the window between the currency check and the delivery); non-trivial = some release is out of issue order; distinct by hash")
 	classOf, classes, err := c13Classes()
 	if err != nil {
 		return err
@@ -289,6 +402,21 @@ func runC13(o opts) error {
 					}
 					st.count(fmt.Sprintf("source:exhaustive-burst-%d", n))
 					if err := runOne(c, nt); err != nil {
+						return err
+					}
+				}
+			}
+		}
+		// the same bursts with the notifications withheld at the client, every release order
+		for n := 2; n <= 3; n++ {
+			for assign := 0; assign < 1<<n; assign++ {
+				for _, perm := range c13Perms(n) {
+					c := c13Case{ClientGate: true, Release: perm}
+					for i := 0; i < n; i++ {
+						c.Ops = append(c.Ops, c13Op{Op: "change", URI: (assign >> i) & 1, Content: (i*3 + assign) % (len(c13Contents) - 1)})
+					}
+					st.count(fmt.Sprintf("source:client-gated-burst-%d", n))
+					if err := runOne(c, true); err != nil {
 						return err
 					}
 				}
